@@ -166,7 +166,10 @@ def judge_partial_actions(name, acts, seed, depth=3):
     data = copy.deepcopy(envs.data_of(name))
     data['action_space'] = list(acts)
     names = tuple(t['name'] for t in data['transition_functions'])
-    env = configs.build(data)
+    try:
+        env = configs.build(data)
+    except Exception as e:  # noqa: BLE001
+        return 1, f'{name} with action_space {list(acts)}: building the configuration raised {type(e).__name__}: {e}'
     n = 0
     for seq in itertools.product(acts, repeat=depth):
         env.set_seed(seed)
